@@ -273,7 +273,7 @@ PROPS = {
 # ---- transaction-level properties (components recv / send) -----------------------------------
 _TX_RULE = ("cases = lock-step scripts against one real RecvTransaction / SendTransaction on tokio's paused clock: a "
             "plausible exchange (random file 0..6 segments incl. zero runs and checksum-neutral word pairs, segment sizes "
-            "16..48, both modes, closure on/off, CRC on/off, immediate/deferred NAK x delay 0/50/700 ms, limits 1..4, "
+            "16..49 (multiples of 4 and not), both modes, closure on/off, CRC on/off, immediate/deferred NAK x delay 0/50/700 ms, limits 1..4, "
             "timeouts 1..9 s, random fault-handler map) perturbed by drops, duplicates, swaps, stray PDUs, user requests "
             "(cancel/suspend/resume/report/abandon/prompt), time advances landing just before/on/after each deadline; "
             "one observation per operation (result class, emitted PDUs, indications, state, has_pdu_to_send, until_timeout, "
